@@ -116,4 +116,103 @@ THEOREM Step == ASSUME IndInv, Next PROVE IndInv'
 
 THEOREM Portable == IndInv => StoredValuesPortable
 BY DEF IndInv
+
+(***************************************************************************)
+(* Second inductive invariant: the counters are integers over the marked   *)
+(* keys, whatever is cached or about to be stored is marked, a key that is *)
+(* being evaluated is not cached, no key is evaluated inside itself, and   *)
+(* the counter of an ordinary key is positive as long as it exists.        *)
+(***************************************************************************)
+TypeOK2 == /\ duplicates \in [DOMAIN duplicates -> Int]
+           /\ stack \in Seq([key : Keys, depth : Nat])
+           /\ scopes \in Seq([var : STRING, dom : STRING])
+PendingMarked    == \A j \in 1..Len(stack) : stack[j].key \in Marked
+PendingNotCached == \A j \in 1..Len(stack) : stack[j].key \notin cache
+Inv2 == TypeOK2 /\ CacheWithinMarked /\ CountersPositive /\ PendingMarked /\ PendingNotCached /\ StackDistinct
+
+THEOREM Step2 == ASSUME Inv2, Next PROVE Inv2'
+<1>1. CASE \E k \in Keys : Hit(k)
+  <2> PICK k \in Keys : Hit(k) BY <1>1
+  <2>1. k \in Marked /\ k \in cache /\ UNCHANGED <<stack, scopes>> BY DEF Hit
+  <2>0. \A j \in 1..Len(stack) : stack[j].key # k BY <2>1 DEF Inv2, PendingNotCached
+  <2>2. CASE duplicates[k] - 1 = 0 /\ k \notin Wild
+    <3>1. duplicates' = Drop(duplicates, k) /\ cache' = cache \ {k} BY <2>2 DEF Hit
+    <3>1a. duplicates' = [x \in (DOMAIN duplicates) \ {k} |-> duplicates[x]] BY <3>1 DEF Drop
+    <3>2. DOMAIN duplicates' = (DOMAIN duplicates) \ {k} /\ \A x \in DOMAIN duplicates' : duplicates'[x] = duplicates[x]
+      BY <3>1a
+    <3>3. duplicates' \in [DOMAIN duplicates' -> Int] BY <3>1a DEF Inv2, TypeOK2
+    <3> QED BY <2>0, <2>1, <3>1, <3>2, <3>3 DEF Inv2, TypeOK2, CacheWithinMarked, CountersPositive, PendingMarked, PendingNotCached, StackDistinct, Marked
+  <2>3. CASE ~(duplicates[k] - 1 = 0 /\ k \notin Wild)
+    <3>1. duplicates' = [duplicates EXCEPT ![k] = duplicates[k] - 1] /\ cache' = cache BY <2>3 DEF Hit
+    <3>2. DOMAIN duplicates' = DOMAIN duplicates BY <3>1
+    <3>3. duplicates[k] \in Int BY <2>1 DEF Inv2, TypeOK2, Marked
+    <3>4. duplicates' \in [DOMAIN duplicates' -> Int] BY <3>1, <3>2, <3>3 DEF Inv2, TypeOK2
+    <3>5. CountersPositive'
+      <4> SUFFICES ASSUME NEW x \in Marked' \ Wild PROVE duplicates'[x] > 0 BY DEF CountersPositive
+      <4>1. x \in Marked \ Wild BY <3>2 DEF Marked
+      <4>2. duplicates[x] > 0 BY <4>1 DEF Inv2, CountersPositive
+      <4>3. CASE x # k BY <4>2, <4>3, <3>1 DEF Marked
+      <4>4. CASE x = k
+        <5>1. duplicates[k] - 1 # 0 BY <2>3, <4>4
+        <5>2. duplicates'[k] = duplicates[k] - 1 BY <3>1, <2>1 DEF Marked
+        <5> QED BY <5>1, <5>2, <4>2, <4>4, <3>3
+      <4> QED BY <4>3, <4>4
+    <3> QED BY <2>1, <3>1, <3>2, <3>4, <3>5 DEF Inv2, TypeOK2, CacheWithinMarked, PendingMarked, PendingNotCached, StackDistinct, Marked
+  <2> QED BY <2>2, <2>3
+<1>2. CASE \E k \in Keys : Shortcut(k)
+  <2> PICK k \in Keys : Shortcut(k) BY <1>2
+  <2>1. stack # <<>> /\ stack' = SubSeq(stack, 1, Len(stack) - 1) /\ UNCHANGED <<duplicates, cache, scopes>> BY DEF Shortcut
+  <2>2. Len(stack') = Len(stack) - 1 /\ \A j \in 1..Len(stack') : stack'[j] = stack[j] BY <2>1 DEF Inv2, TypeOK2
+  <2>3. stack' \in Seq([key : Keys, depth : Nat]) BY <2>1 DEF Inv2, TypeOK2
+  <2> QED BY <2>1, <2>2, <2>3 DEF Inv2, TypeOK2, CacheWithinMarked, CountersPositive, PendingMarked, PendingNotCached, StackDistinct, Marked
+<1>3. CASE \E k \in Keys : Save(k)
+  <2> PICK k \in Keys : Save(k) BY <1>3
+  <2>1. /\ stack # <<>> /\ stack[Len(stack)].key = k /\ stack' = SubSeq(stack, 1, Len(stack) - 1)
+        /\ cache' = cache \cup {k} /\ UNCHANGED <<duplicates, scopes>>
+    BY DEF Save
+  <2>2. Len(stack') = Len(stack) - 1 /\ \A j \in 1..Len(stack') : stack'[j] = stack[j] BY <2>1 DEF Inv2, TypeOK2
+  <2>3. stack' \in Seq([key : Keys, depth : Nat]) BY <2>1 DEF Inv2, TypeOK2
+  <2>4. Len(stack) \in 1..Len(stack) BY <2>1 DEF Inv2, TypeOK2
+  <2>5. k \in Marked BY <2>1, <2>4 DEF Inv2, PendingMarked
+  <2>6. \A j \in 1..Len(stack') : stack'[j].key # k
+    BY <2>1, <2>2, <2>4 DEF Inv2, TypeOK2, StackDistinct
+  <2> QED BY <2>1, <2>2, <2>3, <2>5, <2>6 DEF Inv2, TypeOK2, CacheWithinMarked, CountersPositive, PendingMarked, PendingNotCached, StackDistinct, Marked
+<1>4. CASE \E k \in Keys : \E s \in BOOLEAN : Miss(k, s)
+  <2> PICK k \in Keys, s \in BOOLEAN : Miss(k, s) BY <1>4
+  <2>1. /\ k \in Marked /\ k \notin cache /\ \A j \in 1..Len(stack) : stack[j].key # k
+        /\ stack' = IF s THEN Append(stack, [key |-> k, depth |-> Len(scopes)]) ELSE stack
+        /\ UNCHANGED <<duplicates, cache, scopes>>
+    BY DEF Miss
+  <2>2. CASE ~s
+    BY <2>1, <2>2 DEF Inv2, TypeOK2, CacheWithinMarked, CountersPositive, PendingMarked, PendingNotCached, StackDistinct, Marked
+  <2>3. CASE s
+    <3>1. stack' = Append(stack, [key |-> k, depth |-> Len(scopes)]) BY <2>1, <2>3
+    <3>2. /\ Len(stack') = Len(stack) + 1
+          /\ \A j \in 1..Len(stack) : stack'[j] = stack[j]
+          /\ stack'[Len(stack) + 1] = [key |-> k, depth |-> Len(scopes)]
+      BY <3>1 DEF Inv2, TypeOK2
+    <3>3. Len(scopes) \in Nat BY DEF Inv2, TypeOK2
+    <3>4. stack' \in Seq([key : Keys, depth : Nat]) BY <3>1, <3>3 DEF Inv2, TypeOK2
+    <3> QED BY <2>1, <3>2, <3>4 DEF Inv2, TypeOK2, CacheWithinMarked, CountersPositive, PendingMarked, PendingNotCached, StackDistinct, Marked
+  <2> QED BY <2>2, <2>3
+<1>5. CASE \E v \in STRING, d \in STRING : Open(v, d)
+  <2> PICK v \in STRING, d \in STRING : Open(v, d) BY <1>5
+  <2>1. scopes' = Append(scopes, [var |-> v, dom |-> d]) /\ UNCHANGED <<duplicates, cache, stack>> BY DEF Open
+  <2>2. scopes' \in Seq([var : STRING, dom : STRING]) BY <2>1 DEF Inv2, TypeOK2
+  <2> QED BY <2>1, <2>2 DEF Inv2, TypeOK2, CacheWithinMarked, CountersPositive, PendingMarked, PendingNotCached, StackDistinct, Marked
+<1>6. CASE \E v \in STRING : Close(v)
+  <2> PICK v \in STRING : Close(v) BY <1>6
+  <2>1. scopes # <<>> /\ scopes' = SubSeq(scopes, 1, Len(scopes) - 1) /\ UNCHANGED <<duplicates, cache, stack>> BY DEF Close
+  <2>2. scopes' \in Seq([var : STRING, dom : STRING]) BY <2>1 DEF Inv2, TypeOK2
+  <2> QED BY <2>1, <2>2 DEF Inv2, TypeOK2, CacheWithinMarked, CountersPositive, PendingMarked, PendingNotCached, StackDistinct, Marked
+<1> QED BY <1>1, <1>2, <1>3, <1>4, <1>5, <1>6 DEF Next
+
+LEMMA InitInv2 ==
+  ASSUME NEW d0, d0 \in [DOMAIN d0 -> Int], NEW c0 \in SUBSET (DOMAIN d0),
+         \A k \in (DOMAIN d0) \ Wild : d0[k] > 0, CacheInit(d0, c0)
+  PROVE  Inv2
+BY DEF CacheInit, Inv2, TypeOK2, CacheWithinMarked, CountersPositive, PendingMarked, PendingNotCached, StackDistinct, Marked
+
+THEOREM Housekeeping == Inv2 => CacheWithinMarked /\ CountersPositive /\ StackDistinct
+BY DEF Inv2
 =============================================================================
